@@ -231,8 +231,30 @@ pub fn run(a: &Args) {
         vec![Op::Timer(21 * MS), Op::Send, Op::Recv, Op::Recv],
         vec![Op::Timer(21 * MS), Op::RecvTimeout(67 * MS), Op::RecvTimeout(0)],
         vec![Op::Timer(52 * MS), Op::RecvTimeout(34 * MS), Op::RecvTimeout(34 * MS)],
+        // several timers pending with different deadlines: the blocking calls wake for the EARLIEST one
+        vec![Op::Timer(21 * MS), Op::Timer(FAR), Op::RecvTimeout(67 * MS), Op::Try],
+        vec![Op::Timer(FAR), Op::Timer(21 * MS), Op::RecvTimeout(67 * MS), Op::Try],
+        vec![Op::Timer(52 * MS), Op::Timer(21 * MS), Op::Recv, Op::Recv],
+        vec![Op::Timer(FAR), Op::Timer(52 * MS), Op::Timer(21 * MS), Op::Cancel(2), Op::RecvTimeout(67 * MS), Op::Try],
+        // blocking receive() with both kinds queued and no timer at all
+        vec![Op::Send, Op::Prio, Op::Recv, Op::Recv],
+        vec![Op::Send, Op::Send, Op::Prio, Op::Prio, Op::Recv, Op::Recv, Op::Recv, Op::Recv],
     ];
     let mut histories: Vec<Vec<Op>> = corpus;
+    // the blocking receive() picks priority before plain, every time (not a random choice)
+    for _ in 0..12 { histories.push(vec![Op::Send, Op::Prio, Op::Recv, Op::Recv]); }
+    // long runs of priority events do not change what comes next: priority, then expired timers, then plain
+    for variant in 0..3 {
+        let mut h: Vec<Op> = (0..40).map(|_| Op::Prio).collect();
+        h.push(Op::Timer(0)); h.push(Op::Send);
+        for k in 0..44 { h.push(match (variant, k % 3) { (0, _) => Op::Try, (1, _) => Op::RecvTimeout(0), (_, 0) => Op::Try, (_, 1) => Op::RecvTimeout(0), _ => Op::Recv }); }
+        histories.push(h);
+        // one by one: a priority event is queued before each call, 20 times, with a plain event and an expired timer waiting
+        let mut h: Vec<Op> = vec![Op::Send, Op::Timer(0)];
+        for _ in 0..20 { h.push(Op::Prio); h.push(Op::Prio); h.push(if variant == 1 { Op::RecvTimeout(0) } else { Op::Try }); }
+        h.extend((0..24).map(|_| Op::Try));
+        histories.push(h);
+    }
     // bursts of timer commands larger than any plausible per-call batch, looked at only after the deadline
     for (n, cancel_all) in [(150usize, true), (300, true), (200, false)] {
         let mut h: Vec<Op> = (0..n).map(|_| Op::Timer(21 * MS)).collect();
